@@ -48,7 +48,11 @@ fn budgets(fix: usize, t: &mut Tape) -> Vec<usize> {
 
 fn value_case(tape: &[u8], rec: &Rec) -> Verdict {
     let mut t = Tape::new(tape);
-    let c = gen_sem_case(&mut t, SemOpts::default());
+    let late = t.chance(128);
+    let c = gen_sem_case(&mut t, SemOpts { late_facts: late, ..SemOpts::default() });
+    if late {
+        rec.class("value_programs_biased_to_late_facts");
+    }
     let ix = build_index(&c);
     let traces = traces_for(&c, &mut t, 8);
     let (_, (fix, _)) = lift_with(&c, None, None)?;
@@ -74,7 +78,15 @@ fn value_case(tape: &[u8], rec: &Rec) -> Verdict {
 
 fn degree_case(tape: &[u8], rec: &Rec) -> Verdict {
     let mut t = Tape::new(tape);
-    let c = gen_c07_case(&mut t);
+    let late = t.chance(128);
+    let c = if late {
+        gen_sem_case(&mut t, SemOpts { components: true, data_params: true, late_facts: true, ..Default::default() })
+    } else {
+        gen_c07_case(&mut t)
+    };
+    if late {
+        rec.class("degree_programs_biased_to_late_facts");
+    }
     let flags = data_param_flags(&c);
     if control_depends_on_data(&c, &flags) {
         rec.class("discarded_control_flow_may_depend_on_indeterminates");
@@ -120,9 +132,9 @@ pub fn run(ctx: &Ctx) -> i32 {
     let stats = Stats::new();
     let mut outcome = Outcome::new();
     let known = load_known("C20");
-    let fails = run_tapes_opts(ctx, "value_cuts", ctx.tier.pick(1_500, 40_000), 4000, 300, &stats, value_case);
+    let fails = run_tapes_opts(ctx, "value_cuts", ctx.tier.pick(3_000, 60_000), 4000, 300, &stats, value_case);
     outcome.absorb(&known, fails);
-    let fails = run_tapes_opts(ctx, "degree_cuts", ctx.tier.pick(1_500, 40_000), 4000, 300, &stats, degree_case);
+    let fails = run_tapes_opts(ctx, "degree_cuts", ctx.tier.pick(4_000, 80_000), 4000, 300, &stats, degree_case);
     outcome.absorb(&known, fails);
     finish(
         ctx,
